@@ -47,6 +47,18 @@ const LITS: [(&str, Kind); 20] = [
     ("LL&", Kind::Num),
 ];
 
+/// Pairs of SINGLE / DOUBLE literals closer together than 0.00001 (the last pair is further apart).
+const CLOSE: [(&str, &str); 8] = [
+    ("1.000001", "1.000002"),
+    (".000001#", "0.0#"),
+    ("2.5", "2.500001"),
+    ("100000.5#", "100000.500001#"),
+    (".5", ".500004"),
+    ("-.000002", "-.000001"),
+    ("7.25#", "7.250009#"),
+    ("3.5", "3.6"),
+];
+
 const BINOPS: [&str; 13] = ["+", "-", "*", "/", "MOD", "AND", "OR", "<", "<=", "=", ">=", ">", "<>"];
 const UNOPS: [&str; 2] = ["-", "NOT "];
 
@@ -85,6 +97,7 @@ impl Space {
             "depth1" => (self.nlit1 * self.nlit1 * BINOPS.len() + self.nlit1 * UNOPS.len() + self.nlit1) as u64,
             "depth2" => (2 * BINOPS.len() * BINOPS.len() * self.nlit2 * self.nlit2 * self.nlit2 + UNOPS.len() * BINOPS.len() * self.nlit2 * self.nlit2) as u64,
             "shadow" => (6 * 6 * 6 * BINOPS.len()) as u64,
+            "close" => (CLOSE.len() * 2 * BINOPS.len()) as u64,
             "suffix" => 5 * self.total("depth1"),
             _ => 0,
         }
@@ -112,6 +125,13 @@ impl Space {
                 idx -= nu;
                 let a = idx as usize;
                 Some(Expr { text: LITS.get(a)?.0.to_string(), kind: LITS[a].1, chain: None })
+            }
+            "close" => {
+                // operands closer together than 0.00001 (and one pair further apart), in both orders, under every operator
+                let pair = CLOSE.get((idx / 2) as usize % CLOSE.len())?;
+                let op = BINOPS.get((idx / 2) as usize / CLOSE.len())?;
+                let (a, b) = if idx % 2 == 0 { (pair.0, pair.1) } else { (pair.1, pair.0) };
+                Some(Expr { text: format!("{} {} {}", a, op, b), kind: Kind::Num, chain: None })
             }
             "depth2" => {
                 let n = self.nlit2 as u64;
@@ -475,7 +495,7 @@ pub fn drive(tier: &str) -> i32 {
     let space = Space::new(quick);
     let mut cases = vec![];
     let mut plan = vec![];
-    for g in ["shadow", "suffix", "depth1", "depth2"] {
+    for g in ["shadow", "close", "suffix", "depth1", "depth2"] {
         let t = space.total(g);
         let chunk = 200;
         let mut lo = 0;
@@ -494,7 +514,7 @@ pub fn drive(tier: &str) -> i32 {
         run.capped = true;
     }
     let mut ev = Evidence::new("exploration");
-    ev.set("rule", "depth1: every literal, every unary operator on every literal and every binary operator (+ - * / MOD AND OR < <= = >= > <>) on every ordered pair of 20 operands of all five types (literals incl. 32767, 32768, 2147483647, 65536, 12345678.5#, empty string, and two named constants LO% = -32768 and LL& = -2147483648, the values no literal of their type can denote). depth2: every (a op1 b) op2 c, c op2 (a op1 b) and unary (a op1 b) over the first 5 (thorough 9) literals. For each expression e: PRINT (e) and typed probes ((e) / 3, (e) + 32767, (e) * 65536, LEN, + \"z\") are evaluated by the VM under an error trap; CONST c = e (plain, chained through an earlier constant, and inside a SUB) must make the same probes print the same lines; if evaluating (e) raises Overflow or Division by zero the CONST form must be rejected by the checker with that error, and ill-typed expressions must be rejected in both forms with the same error. suffix: CONST c<suffix> = e for every depth-1 expression and each of the five suffixes, referenced with and without the suffix, against v<suffix> = e (conversion to the suffix type; Overflow at the conversion must be a rejection). shadow: a global CONST X, a SUB redefining X and defining Y = X op c, against the inlined form.");
+    ev.set("rule", "depth1: every literal, every unary operator on every literal and every binary operator (+ - * / MOD AND OR < <= = >= > <>) on every ordered pair of 20 operands of all five types (literals incl. 32767, 32768, 2147483647, 65536, 12345678.5#, empty string, and two named constants LO% = -32768 and LL& = -2147483648, the values no literal of their type can denote). depth2: every (a op1 b) op2 c, c op2 (a op1 b) and unary (a op1 b) over the first 5 (thorough 9) literals. For each expression e: PRINT (e) and typed probes ((e) / 3, (e) + 32767, (e) * 65536, LEN, + \"z\") are evaluated by the VM under an error trap; CONST c = e (plain, chained through an earlier constant, and inside a SUB) must make the same probes print the same lines; if evaluating (e) raises Overflow or Division by zero the CONST form must be rejected by the checker with that error, and ill-typed expressions must be rejected in both forms with the same error. close: every binary operator on 8 pairs of SINGLE / DOUBLE literals closer together than 0.00001 (one pair further apart), in both orders. suffix: CONST c<suffix> = e for every depth-1 expression and each of the five suffixes, referenced with and without the suffix, against v<suffix> = e (conversion to the suffix type; Overflow at the conversion must be a rejection). shadow: a global CONST X, a SUB redefining X and defining Y = X op c, against the inlined form.");
     ev.set("exhaustive", !run.capped);
     ev.set("plan", json!(plan));
     ev.set("distinct_nontrivial", run.nontrivial);
